@@ -240,6 +240,12 @@ def run(ctx):
                 except ValueError:
                     ctx.skip("observable level: all undefined")
                     continue
+                except Exception:
+                    # a result that is undefined on every timeslice may be refused with any exception (the property speaks about defined slices)
+                    if not any(all(0 <= t + k < T and pat[t + k] for k in offs) for t in range(T)):
+                        ctx.skip("observable level: all undefined")
+                        continue
+                    raise
                 ts = [t for t in range(T) if res.content[t] is not None]
                 # definedness: exactly where every referenced slice is defined (and the formula has a real value)
                 for t in range(T):
@@ -260,6 +266,9 @@ def run(ctx):
                 name = "%s('%s') at t=%d" % (fam, v, t)
             elif fam == "root":
                 v = ["cosh", "periodic", "sinh"][(i // 6) % 3]
+                if not any(pat[t] and pat[t + 1] for t in range(T - 1)):
+                    ctx.skip("observable level: all undefined")
+                    continue
                 res = corr.m_eff(v)
                 ts = [t for t in range(T - 1) if res.content[t] is not None and not (v == "sinh" and t in (T / 2, T / 2 - 1))]
                 if not ts:
